@@ -83,9 +83,12 @@ def getOracle (j : Json) : Except String Oracle :=
   | .ok f => do
     let k ← f.getObjValAs? Nat "k"
     let kind ← f.getObjValAs? String "kind"
+    -- a set of faults: further invocation indices that exit non-zero (`also`), tools gone from index `thenMissing` on
+    let also : List Nat := match f.getObjValAs? (List Nat) "also" with | .ok l => l | .error _ => []
+    let thenMissing : Option Nat := match f.getObjValAs? Nat "thenMissing" with | .ok m => some m | .error _ => none
     match kind with
     | "missing" => pure (missingFrom k)
-    | "nonzero" => pure (faultAt k .nonzero)
+    | "nonzero" => pure (if also.isEmpty && thenMissing.isNone then faultAt k .nonzero else faultsAt (k :: also) thenMissing)
     | _ => throw s!"fault kind {kind}"
 
 def pathsOr (j : Json) (k : String) : Except String (List Path) :=
@@ -137,8 +140,21 @@ def specOp (req : Json) : Except String Json := do
     outBefore := ← o.getObjVal? "outBefore" >>= getPaths
     outAfter := ← o.getObjVal? "outAfter" >>= getPaths
     ranIn := ← o.getObjVal? "ranIn" >>= getPaths }
-  let failed := spec key phase fault maxLogged obs
-  pure (Json.mkObj [("holds", failed.isEmpty), ("failed", strsJ failed)])
+  -- a set of faults: `faults` = the failing points (ascending) as read off the stub log; the first unhandled one counts
+  let faults : Option (List FaultPt) ← (match req.getObjVal? "faults" with
+    | .ok (Json.arr a) => do
+      let l ← a.toList.mapM (fun j => do
+        pure ({ k := ← j.getObjValAs? Nat "k", handled := ← j.getObjValAs? Bool "handled",
+                maxLogged := ← j.getObjValAs? Nat "maxLogged", phase := ← j.getObjValAs? String "phase" } : FaultPt))
+      pure (some l)
+    | _ => pure none)
+  let failed := match faults with
+    | some l => specSet key phase l obs
+    | none => spec key phase fault maxLogged obs
+  let eff : Json := match faults with
+    | some l => (match effectiveFault l with | some f => Json.mkObj [("k", f.k), ("handled", f.handled), ("phase", f.phase)] | none => Json.null)
+    | none => Json.null
+  pure (Json.mkObj [("holds", failed.isEmpty), ("failed", strsJ failed), ("effective", eff)])
 
 def handle (op : String) (req : Json) : Except String Json :=
   match op with
